@@ -16,6 +16,7 @@ import types
 from ..common import leanio
 from ..common.leanio import InfraError
 from . import c10_gen as G
+from . import c10_struct as ST
 
 PID = 'C10'
 DRIVERS = ['tc']
@@ -29,6 +30,9 @@ THEOREMS = ['PV.C10.' + t for t in [
   'F4_rejected', 'N2_rejected', 'N3_repaired', 'N5_rejected',
 ]]
 TRUSTED = [
+  'bitstruct-typed signals (L3 of the type checker: struct <-> BitsN and struct <-> struct assignment, field access) and lists of '
+  'Bits constants are NOT in the Lean model: harness/checks/c10_struct.py drives them through the real Gen + TypeCheck passes and '
+  'DefaultPassGroup simulation and judges them with the model-independent oracle only (streams struct, N6, lutctl)',
   'Model/TC.lean follows BehavioralRTLIRTypeCheckL1/L2Pass (visitor + enforcer), RTLIRDataType._get_nbits_from_value / get_index_width; '
   'Model/PyEval.lean composes the PythonBits model of C04/C05 (Model/Bits.lean) with Python int arithmetic',
   'a signal read is modelled as Bits(w, value mod 2**w): the mask is the identity on reachable states',
@@ -56,7 +60,8 @@ RULE = ('streams: typed (type-directed terms, no injected defects), mixite (if-e
 # in /repo: their former witness streams ('F4', 'N2', 'N3', 'N5') are ordinary cases now (no finding label)
 FINDING_OF_ISSUE = [('implArith', 'F12-implicit-arith'), ('tmpFlip', 'N1-tmpvar-explicit-flip'),
                     ('softArith', 'N4-soft-int-arith')]
-FINDING_OF_STREAM = {'F12': 'F12-implicit-arith', 'N1': 'N1-tmpvar-explicit-flip', 'N4': 'N4-soft-int-arith'}
+FINDING_OF_STREAM = {'F12': 'F12-implicit-arith', 'N1': 'N1-tmpvar-explicit-flip', 'N4': 'N4-soft-int-arith',
+                     'N6': 'N6-const-array-element-implicit'}
 
 # ------------------------------------------------------------------ real side
 
@@ -519,6 +524,65 @@ def _process(ck, cases, nvec):
       ck.disagreement('block execution: execS≈DefaultPassGroup simulation', {'case': res['case'], 'inputs': {str(k): v for k, v in init.items()}},
                       model[:300], impl[:300])
 
+# ------------------------------------------------------------------ oracle-only streams (bitstructs, constant lists)
+
+def canon_exc_struct(e):
+  c = canon_exc(e)
+  if c == 'AssertionError' and 'bitstruct' in str(e) and '<>' in str(e): return 'AssertionError:width'
+  return c
+
+def process_src(ck, cases, nvec):
+  """source-level cases of c10_struct.py: real Gen + TypeCheck (all levels) and DefaultPassGroup simulation; no model"""
+  import signal, gc
+  R = real()
+  signal.signal(signal.SIGALRM, _watchdog); signal.alarm(120); gc.disable()
+  try:
+    mod, names = ST.load(ck.workdir, cases)
+    for c, name in zip(cases, names):
+      cls = getattr(mod, name)
+      try:
+        verdict, rtlir, msg = real_check(cls)
+      except Exception as e:
+        ck.hist('outcome_src', 'elaboration-failed:' + type(e).__name__); ck.count(c, False); continue
+      ck.count(c, True); ck.hist('stream', c['stream']); ck.hist('outcome_src', c['stream'] + ' ' + verdict)
+      if verdict != 'ok': continue
+      m = cls(); m.elaborate(); m.apply(R.DefaultPassGroup())
+      bad, wviol = None, []
+      for k in range(nvec + 2):
+        ins = {}
+        for n, d, t in c['ports']:
+          if d == 'in' and t.startswith('Bits'):
+            w = int(t[4:]); v = 0 if k == 0 else ((1 << w) - 1 if k == 1 else rand_value(ck.rng, w))
+            sig = getattr(m, n); sig @= v; ins[n] = v
+        try: m.sim_eval_combinational()
+        except Exception as e:
+          ce = canon_exc_struct(e)
+          ck.hist('sim_outcome_src', 'err ' + ce)
+          if ce.endswith(':width') or ce.endswith(':range') or ce == 'ValueError:other':
+            bad = (ins, ce, str(e).split('\n')[0][:140]); break
+          continue
+        ck.hist('sim_outcome_src', 'ok')
+      if bad is None:
+        for src, sw in ST.explicit_nodes(R, rtlir):
+          try: v = eval(src, mod.__dict__, {'s': m})
+          except Exception: continue
+          nb = getattr(v, 'nbits', None)
+          if isinstance(nb, int) and not isinstance(v, type) and nb != sw: wviol.append((src, sw, nb))
+      f = FINDING_OF_STREAM.get(c['stream'], 'unexplained')
+      if bad is not None:
+        ck.hist('violations', f + ' @' + c['stream'])
+        ck.violation('accepted-block-raises-width-error', {'finding': f}, {'src_case': c, 'inputs': bad[0]},
+                     {'oracle': 'real type checker accepted the block; real simulation (DefaultPassGroup) raised',
+                      'exception': bad[1], 'message': bad[2], 'source': ST.source(c)[1]})
+      elif wviol:
+        ck.hist('violations', f + ' @' + c['stream'])
+        ck.violation('static-width-differs-from-runtime-nbits', {'finding': f}, {'src_case': c},
+                     {'oracle': 'explicitly sized RTLIR node: static width vs nbits of the Python value',
+                      'nodes(src, static, runtime)': wviol[:3], 'source': ST.source(c)[1]})
+      elif c['stream'] in FINDING_OF_STREAM: ck.hist('labelled_without_failure', c['stream'])
+  finally:
+    signal.alarm(0); ST.drop(); gc.enable(); gc.collect()
+
 def _unparse(x):
   if isinstance(x, list): return '(' + ' '.join(_unparse(y) for y in x) + ')'
   return x
@@ -668,6 +732,7 @@ def run(ck):
   check_literals(ck, 400 if quick else 20000)
   check_intops(ck, 2000 if quick else 60000)
   process(ck, corpus(), nvec)
+  process_src(ck, ST.corpus(), nvec)
   uid = [1000]
   def batch(n, f):
     cs = []
@@ -675,7 +740,7 @@ def run(ck):
       uid[0] += 1
       cs.append(f(uid[0]))
     process(ck, cs, nvec)
-  rounds = 27 if quick else 85
+  rounds = 22 if quick else 75
   per = 110 if quick else 300
   for _ in range(rounds):
     batch(per, lambda u: G.gen_typed(rng, u, 0.0, 'typed'))
@@ -685,6 +750,12 @@ def run(ck):
     batch(12 if quick else 30, lambda u: G.gen_boolop(rng, u))
     batch(14 if quick else 36, lambda u: G.gen_tmpseq(rng, u))
     batch(14 if quick else 36, lambda u: G.gen_mixite(rng, u))
+    nsrc = (10, 3, 2) if quick else (30, 8, 6)
+    src_cases = []
+    for n, f in zip(nsrc, (lambda u: ST.gen_struct(rng, u), lambda u: ST.gen_lut(rng, u, 'N6'), lambda u: ST.gen_lut(rng, u, 'lutctl'))):
+      for _ in range(n):
+        uid[0] += 1; src_cases.append(f(uid[0]))
+    process_src(ck, src_cases, nvec)
     for which in ('F4', 'F12', 'N1', 'N2', 'N3', 'N4', 'N5'):
       batch(6 if quick else 20, lambda u: G.gen_finding(rng, u, which))
     if len(ck.breaks) > 50 or sum(1 for v in ck.violations if v.signature.get('finding') not in FINDING_OF_STREAM.values()) > 20: break
@@ -697,6 +768,13 @@ def replay(ck, data):
     print(f'_get_nbits_from_value({v}) = {a}; least width = {least_width(v)}; model: ' + ck.drv('tc').batch([leanio.line('tc', 'nbits', v)])[0])
     return 0 if v < 0 or a == least_width(v) else 1
   if isinstance(case, dict) and 'case' in case: case = case['case']
+  if isinstance(case, dict) and 'src_case' in case:
+    n0 = len(ck.violations)
+    sc = case['src_case']
+    print('\n'.join(ST.source(sc)[1]))
+    for k in range(4): process_src(ck, [dict(sc, uid=sc['uid'] * 10 + k, types=[[t[0], t[1]] for t in sc['types']])], 4)
+    for v in ck.violations[n0:][:2]: print('VIOLATION', v.kind, v.signature, v.detail.get('exception'), v.detail.get('message'))
+    return 1 if len(ck.violations) > n0 else 0
   if not isinstance(case, dict) or 'block' not in case:
     print('no replayable block in', data.get('kind')); return 0
   n0 = len(ck.violations)
